@@ -418,10 +418,63 @@ def r2_overheads(ck, cx):
     ck.ob('R2', f4.qn, 'expected length = base_adu_size + predicted PDU size', okr, detail='response-length-shape', loc=cx.floc(f4))
 
 
+def r3_full_read_mode(ck, cx):
+    """The client reads "everything that comes" instead of the predicted length only for a unit whose previous transaction
+    got no reply at all.  The bookkeeping must enter a unit exactly on an empty reply and release it on ANY non-empty reply:
+    a unit that stays listed has its (shorter) exception replies read with the length of a normal reply."""
+    ck.rule('R3', 'no-response bookkeeping: a unit is listed iff its last reply was empty -- listed on `not response`, released on any non-empty response')
+    from ..txmodel import TxShape
+    sh = TxShape(cx)
+    lst = 'self._no_response_devices'
+    n_add = n_rem = 0
+    for p in cx.enum_region(sh.ex, sh.tm, stmts=sh.loop.body, max_depth=0):
+        annotate(p, heap=False)
+        for i, ev in enumerate(p.ev):
+            if ev.kind == 'call' and isinstance(ev.node.func, ast.Attribute) and U(ev.node.func.value) == lst and ev.node.func.attr in ('append', 'remove', 'discard', 'add'):
+                # the reply is recognised by the local it was bound to (raw text), everything else by its substituted text
+                rname = 'response'
+                for a_ in ast.walk(sh.loop):
+                    if isinstance(a_, ast.Assign) and isinstance(a_.value, ast.Call) and callee_name(a_.value) == '_transact':
+                        t0 = a_.targets[0]
+                        t0 = t0.elts[0] if isinstance(t0, (ast.Tuple, ast.List)) else t0
+                        if isinstance(t0, ast.Name):
+                            rname = t0.id
+                conds = []
+                for c in p.ev[:i]:
+                    if c.kind != 'cond':
+                        continue
+                    raw = U(c.node).replace(' ', '')
+                    if raw in (rname, 'not' + rname):
+                        raw = raw.replace(rname, 'response')
+                        conds.append((raw, c.a))
+                    else:
+                        conds.append((U(c._sub).replace(' ', ''), c.a))
+                extra = []
+                for t, pol in conds:
+                    base = t[3:] if t.startswith('not') else t
+                    if base.strip('()') in ('response',) or lst.replace(' ', '') in base:
+                        continue
+                    extra.append((t, pol))
+                empty = any((t in ('notresponse',) and pol) or (t == 'response' and not pol) for t, pol in conds)
+                nonempty = any((t in ('notresponse',) and not pol) or (t == 'response' and pol) for t, pol in conds)
+                if ev.node.func.attr in ('append', 'add'):
+                    n_add += 1
+                    ck.ob('R3', sh.ex.qn, 'a unit is listed as silent exactly when the reply was empty', empty and not extra,
+                          detail='no-response-listing %s' % extra[:2], loc=cx.floc(sh.ex, ev.node))
+                else:
+                    n_rem += 1
+                    ck.ob('R3', sh.ex.qn, 'a listed unit is released by any non-empty reply', nonempty and not extra,
+                          detail='no-response-release %s' % extra[:2], loc=cx.floc(sh.ex, ev.node),
+                          message='a unit stays on the no-response list unless %s also holds: its next replies are read in "full" mode with the '
+                                  'length predicted for a normal reply, which an exception reply never reaches' % extra[:2])
+    ck.floor('R3', min(n_add, n_rem), 1, 'listing / release sites of the no-response bookkeeping')
+
+
 def run(ck, tier):
     cx = Ctx()
     ck.guard(r1_prediction, ck, cx)
     ck.guard(r2_overheads, ck, cx)
+    ck.guard(r3_full_read_mode, ck, cx)
     ck.assume('datastore contract: getValues(fc, address, n) returns n values')
     ck.assume('binary framing: the overhead is exact only when the payload contains no delimiter bytes (escaping adds bytes)')
     ck.assume('what the transport really returns is not decided')
